@@ -93,7 +93,13 @@ func newPkg(pkg *packages.Package, u *Universe) Package {
 		return fileLine{position.Filename, position.Line + deltaLine}
 	}
 
+	trailingCommentGroups := make(map[*ast.CommentGroup]bool)
+
 	collectCommentGroup := func(c *ast.CommentGroup, isTrailing bool, stmtPos token.Pos) {
+		if isTrailing && c != nil {
+			trailingCommentGroups[c] = true
+		}
+
 		fl := fileLineFor(stmtPos, 0)
 
 		if c != nil && c.Pos() == stmtPos {
@@ -186,7 +192,10 @@ func newPkg(pkg *packages.Package, u *Universe) Package {
 					}
 				}
 			case *ast.CommentGroup:
-				collectCommentGroup(x, false, x.Pos())
+				// a trailing comment is not the doc of the next line
+				if !trailingCommentGroups[x] {
+					collectCommentGroup(x, false, x.Pos())
+				}
 			case *ast.ValueSpec:
 				collectCommentGroup(x.Doc, false, x.Pos())
 				collectCommentGroup(x.Comment, true, x.Pos())
